@@ -185,6 +185,10 @@ async fn run_storm(a: &Args, m: &mut mon::Mon) {
                     }
                 }
             }
+            if k % 500 == 250 && a.prop == "C17" {
+                w.refresh_oracles();
+                scen::dust_debt_then_deposit_over_cap(&mut w, m, &mut r, s.g, s.liquidator).await;
+            }
             if k == 1200 && matches!(a.prop.as_str(), "C02" | "C16" | "ALL") {
                 w.refresh_oracles();
                 scen::slot_saturation(&mut w, m, &mut r, s.g, s.liquidator).await;
